@@ -211,6 +211,10 @@ func (*c14Prop) Gen(r *Rand, pl *Plan) Case {
 		l := r.Intn(3)
 		c.Common = []int{l, l + r.Intn(6)} // (prefix / huge placements are ignored in this mode too)
 	}
+	caseHuge := 0
+	if r.Chance(1, 8) {
+		caseHuge = hugeSizes[r.Intn(len(hugeSizes))]
+	}
 	for i := 0; i < nt; i++ {
 		t := c14Task{Graph: r.Intn(ng), Eval: r.Chance(2, 3), StaticCheck: r.Chance(1, 6), Transform: r.Chance(1, 6), Twice: r.Chance(1, 6)}
 		spec := &c.Graphs[t.Graph]
@@ -231,6 +235,9 @@ func (*c14Prop) Gen(r *Rand, pl *Plan) Case {
 		}
 		if r.Chance(1, 12) {
 			t.Huge = hugeSizes[r.Intn(len(hugeSizes))]
+		}
+		if caseHuge > 0 && r.Chance(3, 4) {
+			t.Huge = caseHuge // the same placement for (most of) the runs: equal inputs get equal global positions
 		}
 		t.FromFile = useFiles
 		for k := r.Intn(3); k > 0 && r.Chance(1, 3); k-- {
